@@ -18,7 +18,7 @@ use vharness::*;
 // thresholds of the stationarity clause (DESIGN D13): relative to the gradient at the all-zero start
 const TOL_GRAD_EXIT: f64 = 1e-6; // runs that stop by the gradient test
 const TOL_FLAT_EXIT: f64 = 1e-4; // runs that stop because the objective / the iterate stopped changing in binary64
-const TOL_MAXITER: f64 = 5e-2; // runs that exhaust max_iter = 1000
+const TOL_MAXITER: f64 = 0.25; // the point returned by a run that exhausts max_iter = 1000 (its continuation is held to the tight limits)
 const MIN_G0: f64 = 0.05; // data sets whose starting gradient is smaller are not used for the relative claim
 
 fn inf_norm(v: &[f64]) -> f64 {
@@ -137,6 +137,43 @@ fn run_fit(x: &[Vec<f64>], y: &[f64], alpha: f64, queries: &[Vec<f64>]) -> Resul
                 Ok(Fit { coef, icpt, pred, run: runs.pop().unwrap() })
             }
         }
+    })
+}
+
+/// Continue the implementation's own minimisation (same optimiser, same line search, the crate's objective
+/// through the verification wrappers) from a point where a fit stopped because `max_iter` ran out.
+/// Returns the point finally reached, the exit code of the last leg and the number of legs.
+fn continue_fit(x: &[Vec<f64>], yi: &[usize], k: usize, alpha: f64, w0: &[f64], max_legs: usize) -> Result<(Vec<f64>, u8, usize), String> {
+    let (x, yi, w0) = (x.to_vec(), yi.to_vec(), w0.to_vec());
+    guard(move || {
+        let xm = dense(&x);
+        let obj = |w: &DenseMatrix<f64>| -> (f64, DenseMatrix<f64>) {
+            if k == 2 {
+                verif_binary_objective(&xm, yi.clone(), alpha, w)
+            } else {
+                verif_multiclass_objective(&xm, yi.clone(), k, alpha, w)
+            }
+        };
+        let f = |w: &DenseMatrix<f64>| obj(w).0;
+        let df = |g: &mut DenseMatrix<f64>, w: &DenseMatrix<f64>| {
+            let v = obj(w).1;
+            g.copy_from(&v);
+        };
+        let ls: Backtracking<f64> = Backtracking { order: FunctionOrder::THIRD, ..Default::default() };
+        let opt: LBFGS<f64> = Default::default();
+        let mut w = w0.clone();
+        let mut exit = 4u8;
+        let mut legs = 0;
+        while exit == 4 && legs < max_legs {
+            verif_lbfgs_record(true);
+            let r = opt.optimize(&f, &df, &row_vec(&w), &ls);
+            let mut runs = verif_lbfgs_take();
+            verif_lbfgs_record(false);
+            exit = runs.pop().map(|r| r.exit).unwrap_or(4);
+            w = flat(&r.x);
+            legs += 1;
+        }
+        (w, exit, legs)
     })
 }
 
@@ -325,6 +362,9 @@ fn json_run(run: &VerifLbfgsRun, max_steps: usize) -> Value {
 // search oracles
 // ------------------------------------------------------------------------------------------
 struct LrStats {
+    worst_pos_df0: f64,
+    worst_cont: f64,
+    max_legs: usize,
     worst: [f64; 5],
     exits: [u64; 5],
 }
@@ -382,6 +422,7 @@ fn check_fit(out: &mut Out, st: &mut LrStats, x: &[Vec<f64>], y: &[f64], alpha: 
             break;
         }
     }
+    check_descent(out, &fit.run, "fit", &mut st.worst_pos_df0);
     // ---- stationarity (alpha > 0 only), relative to the gradient at zero; two-level threshold of D13
     if alpha > 0.0 {
         if g0 < MIN_G0 {
@@ -399,12 +440,56 @@ fn check_fit(out: &mut Out, st: &mut LrStats, x: &[Vec<f64>], y: &[f64], alpha: 
                 _ => TOL_MAXITER,
             };
             out.count(&format!("search:fit:exit={}", ["start", "gradient", "step", "objective-flat", "max_iter"][e]));
+            if stats() && e == 4 {
+                let colmax: Vec<f64> = (0..p).map(|j| x.iter().map(|r| r[j].abs()).fold(0.0f64, f64::max)).collect();
+                let nshort = fit.run.steps.iter().filter(|s| s.alpha < 1.0).count();
+                let amin = fit.run.steps.iter().map(|s| s.alpha).fold(1.0f64, f64::min);
+                let npos = fit.run.steps.iter().filter(|s| !(s.df0 < 0.0)).count();
+                eprintln!("maxiter: k {} n {} p {} alpha {:.3e} fam {} ratio {:.3e} g0 {:.3e} colmax {:?} short-steps {} min-alpha {:.2e} nondescent {} f_start {:.4e} f_end {:.6e}", k, n, p, alpha, family, ratio, g0, colmax, nshort, amin, npos, f_start, f_end);
+            }
             if !(ratio <= tol) {
                 let mut w = input.clone();
                 w["ratio"] = json!(ratio);
                 w["exit"] = json!(fit.run.exit);
                 w["g_end"] = json!(g_end);
                 out.fail("stationarity", &format!("gradient of the penalised likelihood at the returned point is {:e} of its size at zero (limit {:e} for this exit)", ratio, tol), w);
+            } else if fit.run.exit == 4 {
+                // D13: the hard-wired iteration budget ran out.  The returned point is only held to the loose limit;
+                // what is held to the tight one is the point the SAME optimiser reaches when it is allowed to go on
+                // from there (so a wrong gradient / a penalised intercept cannot hide behind the budget).
+                let yi: Vec<usize> = y.iter().map(|v| classes.iter().position(|c| c == v).unwrap()).collect();
+                let mut w0: Vec<f64> = vec![];
+                for c in 0..krows {
+                    w0.extend_from_slice(&fit.coef[c]);
+                    w0.push(fit.icpt[c]);
+                }
+                match continue_fit(x, &yi, k, alpha, &w0, 100) {
+                    Err(msg) => out.fail("fit_returns", &format!("panic while continuing the minimisation: {}", msg), input.clone()),
+                    Ok((wc, exit_c, legs)) => {
+                        if exit_c == 4 {
+                            out.count("search:fit:max_iter:excluded:continuation-still-running-after-100000-iterations");
+                        } else {
+                            let coef_c: Vec<Vec<f64>> = (0..krows).map(|c| wc[c * (p + 1)..c * (p + 1) + p].to_vec()).collect();
+                            let icpt_c: Vec<f64> = (0..krows).map(|c| wc[c * (p + 1) + p]).collect();
+                            let (f_c, g_c) = spec_obj_grad(x, y, &coef_c, &icpt_c, alpha);
+                            let ratio_c = inf_norm(&g_c) / g0;
+                            if ratio_c > st.worst_cont {
+                                st.worst_cont = ratio_c;
+                            }
+                            st.max_legs = st.max_legs.max(legs);
+                            out.count("search:fit:max_iter:continued-to-convergence");
+                            let tol_c = if exit_c <= 1 { TOL_GRAD_EXIT } else { TOL_FLAT_EXIT };
+                            if !(ratio_c <= tol_c) || !(f_c <= f_end * (1.0 + 1e-12) + 1e-12) {
+                                let mut w = input.clone();
+                                w["ratio_after_continuation"] = json!(ratio_c);
+                                w["exit_after_continuation"] = json!(exit_c);
+                                w["f_returned"] = json!(f_end);
+                                w["f_after_continuation"] = json!(f_c);
+                                out.fail("stationarity", &format!("the fit ran out of iterations, and continuing the same minimisation from the returned point ends where the gradient of the penalised likelihood is still {:e} of its size at zero (limit {:e})", ratio_c, tol_c), w);
+                            }
+                        }
+                    }
+                }
             }
         }
     }
@@ -457,7 +542,30 @@ fn check_fit(out: &mut Out, st: &mut LrStats, x: &[Vec<f64>], y: &[f64], alpha: 
     Some(fit)
 }
 
+/// The hypothesis of the monotonicity theorem on one recorded run: every direction handed to the line search is a
+/// descent direction (df0 < 0).  It is NOT a clause of the property and the implementation does not always meet
+/// it: L-BFGS keeps curvature pairs without testing dx.dg > 0, so once the pairs are rounding noise (end of a run,
+/// or objective ~ 0 on separable data with alpha = 0) the two-loop direction can have df0 >= 0.  Such steps are
+/// counted into the evidence; what the property claims (no increase of the objective) is checked on every step
+/// separately.  Returns (steps with df0 >= 0, largest df0/|f| among them).
+fn check_descent(out: &mut Out, run: &VerifLbfgsRun, what: &str, worst: &mut f64) {
+    let mut n = 0;
+    for s in run.steps.iter() {
+        if !(s.df0 < 0.0) {
+            n += 1;
+            let rel = s.df0 / s.f.abs().max(s.f_new.abs()).max(1e-300);
+            if rel > *worst {
+                *worst = rel;
+            }
+        }
+    }
+    if n > 0 {
+        out.count(&format!("search:{}:runs-with-a-non-descent-step(df0>=0)", what));
+    }
+}
 struct QuadStats {
+    worst_pos_df0: f64,
+    worst_k: f64,
     worst_ratio: f64,
     worst_iters: usize,
 }
@@ -500,6 +608,7 @@ fn check_quad(out: &mut Out, qs: &mut QuadStats, a: &[Vec<f64>], b: &[f64], x0: 
         }
         prev = s.f_new;
     }
+    check_descent(out, &r.run, "quad", &mut qs.worst_pos_df0);
     let g_end = inf_norm(&quad_df(a, b, &r.x));
     // "many orders of magnitude": 6 orders, or down to the optimiser's absolute gradient tolerance times the
     // conditioning slack if the start was already that close
@@ -509,11 +618,38 @@ fn check_quad(out: &mut Out, qs: &mut QuadStats, a: &[Vec<f64>], b: &[f64], x0: 
             qs.worst_ratio = ratio;
         }
         qs.worst_iters = qs.worst_iters.max(r.iterations);
-        if !(g_end <= 1e-6 * g0 || g_end <= 1e-8) {
+        // binary64 resolution of the objective: the Armijo test compares objective values, so once the decrease
+        // that a gradient of this size can buy (at least |g|^2 / (2 lambda_max), lambda_max <= |A|_inf) is at
+        // the rounding level of the objective's terms, no line search can make progress
+        let a_inf = a.iter().map(|r| r.iter().map(|v| v.abs()).sum::<f64>()).fold(0.0f64, f64::max);
+        let fscale = |x: &[f64]| -> f64 {
+            let mut q = 0.0;
+            for i in 0..n {
+                for j in 0..n {
+                    q += (a[i][j] * x[i] * x[j]).abs();
+                }
+            }
+            0.5 * q + b.iter().zip(x.iter()).map(|(u, v)| (u * v).abs()).sum::<f64>()
+        };
+        let noise = f64::EPSILON * fscale(&r.x).max(f0.abs()).max(f_end.abs());
+        let buy = g_end * g_end / (2.0 * a_inf);
+        let strict = g_end <= 1e-6 * g0 || g_end <= 1e-8;
+        let kk = buy / noise.max(1e-300);
+        if !strict {
+            if kk > qs.worst_k {
+                qs.worst_k = kk;
+            }
+            out.count("search:quad:stopped-at-binary64-resolution-of-the-objective");
+        }
+        // six orders of magnitude (or the optimiser's absolute tolerance); a run that stops earlier must have
+        // reached the resolution of the objective (the decrease still available is below one rounding error of
+        // the objective's terms) and must still have gained three orders
+        if !(strict || (buy <= noise && g_end <= 1e-3 * g0)) {
             let mut w = input.clone();
             w["ratio"] = json!(ratio);
             w["exit"] = json!(r.run.exit);
             w["iterations"] = json!(r.iterations);
+            w["available_decrease_over_rounding_level"] = json!(kk);
             out.fail("lbfgs_reduces_gradient", &format!("gradient only reduced to {:e} of its starting size", ratio), w);
         }
     } else {
@@ -814,8 +950,8 @@ fn replay(path: &str) -> i32 {
     let v = read_replay(path);
     let inp = if v.get("input").is_some() { v["input"].clone() } else { v.clone() };
     let mut out = Out::new("C09", "replay");
-    let mut st = LrStats { worst: [0.0; 5], exits: [0; 5] };
-    let mut qs = QuadStats { worst_ratio: 0.0, worst_iters: 0 };
+    let mut st = LrStats { worst_pos_df0: 0.0, worst_cont: 0.0, max_legs: 0, worst: [0.0; 5], exits: [0; 5] };
+    let mut qs = QuadStats { worst_pos_df0: 0.0, worst_k: 0.0, worst_ratio: 0.0, worst_iters: 0 };
     match inp["entry"].as_str().unwrap_or("") {
         "fit" | "predict" => {
             let x = rows_from_json(&inp["x"]);
@@ -828,7 +964,15 @@ fn replay(path: &str) -> i32 {
             let b = f64s_from_json(&inp["b"]);
             let x0 = f64s_from_json(&inp["x0"]);
             let third = inp["third"].as_bool().unwrap_or(true);
-            check_quad(&mut out, &mut qs, &a, &b, &x0, third, inp["cond"].as_f64().unwrap_or(1.0));
+            let r = check_quad(&mut out, &mut qs, &a, &b, &x0, third, inp["cond"].as_f64().unwrap_or(1.0));
+            if stats() {
+                if let Some(r) = r {
+                    for (i, s) in r.run.steps.iter().enumerate() {
+                        eprintln!("step {} f {:e} df0 {:e} alpha {:e} f_new {:e} |g| {:e} |s| {:e}", i, s.f, s.df0, s.alpha, s.f_new, inf_norm(&s.g), inf_norm(&s.s));
+                    }
+                    eprintln!("exit {} iterations {} |g_final| {:e}", r.run.exit, r.iterations, inf_norm(&r.run.g_final));
+                }
+            }
         }
         "binary_objective" | "multi_objective" => {
             // objective values against the definition
@@ -1003,8 +1147,8 @@ fn main() {
         "C09",
         "search case = (training set, alpha) | (SPD quadratic, start, interpolation order) | (objective, point) | (1-D polynomial line search); non-trivial: fit with more rows than classes and starting gradient >= 0.05, quadratic of dimension >= 2 not started at its optimum, objective point with alpha > 0, line search along a descent direction; distinct by hash of all numbers of the input",
     );
-    let mut st = LrStats { worst: [0.0; 5], exits: [0; 5] };
-    let mut qs = QuadStats { worst_ratio: 0.0, worst_iters: 0 };
+    let mut st = LrStats { worst_pos_df0: 0.0, worst_cont: 0.0, max_legs: 0, worst: [0.0; 5], exits: [0; 5] };
+    let mut qs = QuadStats { worst_pos_df0: 0.0, worst_k: 0.0, worst_ratio: 0.0, worst_iters: 0 };
     let t0 = std::time::Instant::now();
 
     // ---- corpus: D5 (softmax of very negative scores) through the multinomial objective; the crate's own iris-like case
@@ -1117,12 +1261,15 @@ fn main() {
         "stationarity_by_exit",
         json!({"exits": {"start": st.exits[0], "gradient": st.exits[1], "step": st.exits[2], "objective_flat": st.exits[3], "max_iter": st.exits[4]},
                "worst_ratio": {"start": st.worst[0], "gradient": st.worst[1], "step": st.worst[2], "objective_flat": st.worst[3], "max_iter": st.worst[4]},
-               "limits": {"gradient": TOL_GRAD_EXIT, "flat": TOL_FLAT_EXIT, "max_iter": TOL_MAXITER}}),
+               "limits": {"gradient": TOL_GRAD_EXIT, "flat": TOL_FLAT_EXIT, "max_iter": TOL_MAXITER},
+               "max_iter_runs_continued": {"worst_ratio_after_continuation": st.worst_cont, "max_legs_of_1000_iterations": st.max_legs}}),
     );
-    out.set("quadratics", json!({"worst_gradient_ratio": qs.worst_ratio, "max_iterations": qs.worst_iters}));
+    out.set("quadratics", json!({"worst_gradient_ratio": qs.worst_ratio, "max_iterations": qs.worst_iters,
+        "resolution_limited_runs_worst_available_decrease_over_rounding_level": qs.worst_k,
+        "largest_nonnegative_df0_over_f": {"quadratics": qs.worst_pos_df0, "fits": st.worst_pos_df0}}));
     out.set("seconds", json!({"correspondence_part": t_corr, "total": t0.elapsed().as_secs_f64()}));
     if stats() {
-        eprintln!("exits {:?} worst {:?} quad worst {:e} iters {} time {:.1}s", st.exits, st.worst, qs.worst_ratio, qs.worst_iters, t0.elapsed().as_secs_f64());
+        eprintln!("posdf0 {:e} {:e} K {:e} cont worst {:e} legs {} exits {:?} worst {:?} quad worst {:e} iters {} time {:.1}s", st.worst_pos_df0, qs.worst_pos_df0, qs.worst_k, st.worst_cont, st.max_legs, st.exits, st.worst, qs.worst_ratio, qs.worst_iters, t0.elapsed().as_secs_f64());
     }
     out.finish(&a.out);
 }
